@@ -101,6 +101,14 @@ def stepLine (env : Env) (line : String) : Env × Option String :=
     match env[id]?, decodeVariant toks with
     | some d, some v => (env.insert id { d with variants := d.variants ++ [v] }, none)
     | _, _ => (env, some "bad-variant")
+  | "rawvariant" :: id :: toks =>
+    -- the variant as written: attribute collection is part of the model (StrumModel/Collect.lean)
+    match env[id]?, decodeRawVariant toks with
+    | some d, some r =>
+      match collectVariant r with
+      | .ok v => (env.insert id { d with variants := d.variants ++ [v] }, none)
+      | .error _ => (env, some "collect-error")
+    | _, _ => (env, some "bad-variant")
   | "op" :: id :: args =>
     match env[id]? with
     | some d => (env, some (runOp d args))
